@@ -366,16 +366,28 @@ Definition create_eqb (a b : create) : bool :=
   && (c_container a =? c_container b) && Bool.eqb (c_active a) (c_active b)
   && list_eqb fchange_eqb (c_sets a) (c_sets b).
 
-Definition update_logged_eqb (a b : update) : bool :=
+(* act: the activity value the logged row of the generated update must carry *)
+Definition update_logged_eqb (act : update -> bool) (a b : update) : bool :=
   (u_id a =? u_id b) && (u_parent a =? u_parent b) && (u_container a =? u_container b)
-  && Bool.eqb (u_active a) (u_active b) && option_eqb Bool.eqb (u_assign a) (u_assign b)
+  && Bool.eqb (act a) (u_active b) && option_eqb Bool.eqb (u_assign a) (u_assign b)
   && list_eqb fchange_eqb (u_changes a) (u_changes b).
 
 (* update rows are stored in Go map order: compared as sets (ids are distinct in an accepted event) *)
-Definition logged_eqb (a b : event) : bool :=
+Definition logged_eqb (act : update -> bool) (a b : event) : bool :=
   (e_ws a =? e_ws b) && list_eqb create_eqb (e_creates a) (e_creates b)
   && (length (e_updates a) =? length (e_updates b))%nat
-  && forallb (fun u => existsb (update_logged_eqb u) (e_updates b)) (e_updates a).
+  && forallb (fun u => existsb (update_logged_eqb act u) (e_updates b)) (e_updates a).
+
+(* the value logged for an update: assigned, else the activity of the object handed to Update
+   (F-C03-2) or - once validEvent refreshes it - of the stored record, which an unassigned update
+   leaves as it is (st: the store after the event) *)
+Definition logged_activity (st : store) (ws : N) (u : update) : bool :=
+  match u_assign u with
+  | Some b => b
+  | None => if rec_update_activity_from_store
+            then match lookup st ws (u_id u) with Some o => r_active o | None => r_active (u_origin u) end
+            else r_active (u_origin u)
+  end.
 
 Fixpoint agrees_from (st : store) (last : option (event * list item)) (t : trace) : bool :=
   match t with
@@ -402,7 +414,7 @@ Fixpoint agrees_from (st : store) (last : option (event * list item)) (t : trace
   | SLogged e' :: rest =>
       match last with
       | None => false
-      | Some (e, _) => logged_eqb e e' && agrees_from st last rest
+      | Some (e, _) => logged_eqb (logged_activity st (e_ws e)) e e' && agrees_from st last rest
       end
   | SHeld a b :: rest => option_eqb rec_eqb a b && agrees_from st last rest
   end.
